@@ -135,22 +135,62 @@ void a_complex_mul_(a_complex *ctx, a_complex z)
     ctx->imag = real * z.imag + ctx->imag * z.real;
 }
 
+/* Exponent by which z is scaled so that its larger component lies in [1, 2). Scaling by a power of two is exact. */
+static A_INLINE int a_complex_bexp_(a_complex z)
+{
+    int e = 1;
+    a_real const x = a_real_abs(z.real), y = a_real_abs(z.imag);
+    (void)a_real_frexp(x > y ? x : y, &e);
+    return 1 - e;
+}
+
 void a_complex_div_(a_complex *ctx, a_complex z)
 {
-    a_real const inv = 1 / a_complex_abs(z);
-    a_real const xr = ctx->real * inv;
-    a_real const xi = ctx->imag * inv;
-    a_real const yr = z.real * inv;
-    a_real const yi = z.imag * inv;
-    ctx->real = xr * yr + xi * yi;
-    ctx->imag = xi * yr - xr * yi;
+    a_real r = a_complex_abs(z);
+    if (r < A_REAL_MIN || r > A_REAL_MAX)
+    {
+        /* 1 / |z| (subnormal z) or |z| itself (components near the largest finite value) is not representable:
+           x / z = (x * 2^e) / (z * 2^e) */
+        int const e = a_complex_bexp_(z);
+        z.real = a_real_ldexp(z.real, e);
+        z.imag = a_real_ldexp(z.imag, e);
+        ctx->real = a_real_ldexp(ctx->real, e);
+        ctx->imag = a_real_ldexp(ctx->imag, e);
+        r = a_complex_abs(z);
+    }
+    {
+        a_real const inv = 1 / r;
+        a_real const xr = ctx->real * inv;
+        a_real const xi = ctx->imag * inv;
+        a_real const yr = z.real * inv;
+        a_real const yi = z.imag * inv;
+        ctx->real = xr * yr + xi * yi;
+        ctx->imag = xi * yr - xr * yi;
+    }
 }
 
 void a_complex_inv_(a_complex *ctx)
 {
-    a_real const inv = 1 / a_complex_abs(*ctx);
-    ctx->real = +inv * ctx->real * inv;
-    ctx->imag = -inv * ctx->imag * inv;
+    a_real r = a_complex_abs(*ctx);
+    int e = 0;
+    if (r < A_REAL_MIN || r > A_REAL_MAX)
+    {
+        /* 1 / z = 2^e / (z * 2^e) */
+        e = a_complex_bexp_(*ctx);
+        ctx->real = a_real_ldexp(ctx->real, e);
+        ctx->imag = a_real_ldexp(ctx->imag, e);
+        r = a_complex_abs(*ctx);
+    }
+    {
+        a_real const inv = 1 / r;
+        ctx->real = +inv * ctx->real * inv;
+        ctx->imag = -inv * ctx->imag * inv;
+    }
+    if (e)
+    {
+        ctx->real = a_real_ldexp(ctx->real, e);
+        ctx->imag = a_real_ldexp(ctx->imag, e);
+    }
 }
 
 #if A_PREREQ_GNUC(2, 95) || __has_warning("-Wimplicit-function-declaration")
